@@ -94,3 +94,9 @@ Theorem C06_accept_mono_old_refuted_merge : exists E E' e t,
   env_looser E E' /\ chk merge_old true E None e = (t, []) /\ snd (chk merge_old true E' None e) <> [].
 Proof. exact accept_mono_old_refuted_merge. Qed.
 Print Assumptions C06_accept_mono_old_refuted_merge.
+
+(* no diagnostic names `any` as the type that is the reason of the error
+   ([blamed]: the operand type(s) the message prints as offending) *)
+Theorem C06_any_never_blamed : forall E e d, In d (snd (check E e)) -> ~ In TAny (blamed (d_kind d)).
+Proof. exact any_never_blamed. Qed.
+Print Assumptions C06_any_never_blamed.
